@@ -264,6 +264,13 @@ def coq_prepare():
     if old != txt:
         with open(pg, "w") as f:
             f.write(txt)
+    for prop, ptxt in P.generate_per_property(REPO).items():
+        d = os.path.join(COQ, prop)
+        if os.path.isdir(d):
+            pp = os.path.join(d, "ParamsGen.v")
+            if not os.path.exists(pp) or open(pp).read() != ptxt:
+                with open(pp, "w") as f:
+                    f.write(ptxt)
     files = coq_files()
     proj = "-Q . LTV\n-arg -w -arg -notation-overridden,-deprecated-hint-without-locality,-deprecated-instance-without-locality,-ambiguous-paths,-deprecated\n" + "\n".join(files) + "\n"
     pj = os.path.join(COQ, "_CoqProject")
@@ -282,7 +289,7 @@ def coq_build(prop, timeout=1500):
     Returns dict(obligations, discharged, theorems, axioms, ok, log, params_ok)."""
     with Lock("coq"):
         files = coq_prepare()
-        mine = [f for f in files if f.startswith(prop + "/") or f.startswith("Common/") or f == "Params_gen.v"]
+        mine = [f for f in files if (f.startswith(prop + "/") and not f.endswith("/ParamsGen.v")) or f.startswith("Common/")]
         lint = coq_lint([os.path.join(COQ, f) for f in mine])
         targets = [prop + "/Properties.vo"]
         if os.path.exists(os.path.join(COQ, prop, "Extract.v")):
